@@ -289,12 +289,17 @@ func genUndColor(g *vlib.G) {
 			for idk := 0; idk < nIDMaps; idk++ {
 				for v := 0; v < nVariants; v++ {
 					// all partial colourings on the deterministic ascending
-					// variant; a rotating third of them elsewhere when n >= 5.
+					// variant (n=6: under the identity map only); a rotating
+					// third (n=5) or sixth (n=6) of them on the other combinations.
 					sub := ps
-					if s.n >= 5 && v != vOrdAsc {
+					if (s.n == 5 && v != vOrdAsc) || (s.n >= 6 && !(v == vOrdAsc && idk == idIdentity)) {
+						stride := 3
+						if s.n >= 6 {
+							stride = 6
+						}
 						sub = nil
 						for pi := range ps {
-							if pi < 2 || pi%3 == (idk+v)%3 || ps[pi].absent {
+							if pi < 2 || pi%stride == (idk*nVariants+v)%stride || ps[pi].absent {
 								sub = append(sub, ps[pi])
 							}
 						}
@@ -421,7 +426,8 @@ func genUndColorHard(g *vlib.G) {
 	for _, m := range hard8 {
 		one(8, m, true)
 	}
-	if !g.Thorough() {
+	if !g.Thorough() || vlib.Env("VERIF_CONFIG", "default") != "default" {
+		// quick tier, and the tomita configuration in both tiers: the fixed lists only.
 		for _, m := range hard7 {
 			one(7, m, true)
 		}
